@@ -17,6 +17,7 @@ func init() {
 	registry["C19"] = runC19
 	subcmds["gen-configtable"] = c19GenConfigTable
 	subcmds["c19-write"] = c19WriteChild
+	subcmds["c19-edits"] = c19EditsChild
 }
 
 func c19CoqStr(s string) string { return Render(S(s))[3:] }
